@@ -5,6 +5,7 @@ extern crate anoncreds;
 
 mod c13;
 mod c16;
+mod c20;
 mod out;
 mod rng;
 mod sx;
@@ -24,6 +25,7 @@ fn main() {
     match prop {
         "C13" => c13::run(tier, seed, outdir),
         "C16" => c16::run(tier, seed, outdir),
+        "C20" => c20::run(tier, seed, outdir),
         _ => {
             eprintln!("unknown property {}", prop);
             std::process::exit(2);
